@@ -141,7 +141,8 @@ TOKENIZER = [
     spec=r'''    requires start + 1 == old(self).off(), old(self).in_token(start as int),
     ensures final(self).scan_frame(old(self), start as int),
         r matches Ok(Token::Operator(s, sp)) && sp == Span(start, final(self).off() as usize) && s.spec_bytes() == final(self).text(start as int, final(self).off()),
-        sym_run(final(self).bytes(), start as int, final(self).off()) && sym_stop(final(self).bytes(), start as int, final(self).off()),  // @C10 class.greedy_operator''',
+        sym_run(final(self).bytes(), start as int, final(self).off()) && sym_stop(final(self).bytes(), start as int, final(self).off()),  // @C10 class.greedy_operator
+        r is Ok,  // @C05,C10 scanner.total''',
     ops=[Ins('loop#0', 'body_start', '            let ghost o0 = self.off(); proof { broadcast use axiom_str_to_string; }'),
       Ins('call:next_one', 'after', """                        proof {
                             let b_ = self.bytes(); let a_ = start as int; let e_ = self.off();
@@ -173,7 +174,8 @@ TOKENIZER = [
     spec=r'''    requires old(self).in_token(start as int),
     ensures final(self).scan_frame(old(self), start as int),
         r matches Ok(Token::Operator(s, sp)) && sp == Span(start, final(self).off() as usize) && s.spec_bytes() == final(self).text(start as int, final(self).off()),
-        no_stop_inside(final(self).bytes(), old(self).off(), final(self).off()) && word_stop(final(self).bytes(), final(self).off()),  // @C10 class.word_operator''',
+        no_stop_inside(final(self).bytes(), old(self).off(), final(self).off()) && word_stop(final(self).bytes(), final(self).off()),  // @C10 class.word_operator
+        r is Ok,  // @C05,C10 scanner.total''',
     ops=[Inv('loop#0', r'''        invariant self.scan_frame(old(self), start as int),
             no_stop_inside(self.bytes(), old(self).off(), self.off()),
         ensures word_stop(self.bytes(), self.off()),
@@ -208,7 +210,8 @@ TOKENIZER = [
     spec=r'''    requires is_delim_b(old(self).bytes()[start as int]), old(self).in_token(start as int), start + 1 == old(self).off(),
     ensures *final(self) == *old(self),
         r matches Ok(Token::Delim(ty, sp)) && sp == Span(start, (start + 1) as usize),
-        r matches Ok(Token::Delim(ty, sp)) && ty == delim_of_byte(old(self).bytes()[start as int]),  // @C10 class.delimiter''',
+        r matches Ok(Token::Delim(ty, sp)) && ty == delim_of_byte(old(self).bytes()[start as int]),  // @C10 class.delimiter
+        r is Ok,  // @C05,C10 scanner.total''',
     ops=[Ins('entry', '', '''        proof { broadcast use axiom_ascii_singleton; reveal_strlit("("); reveal_strlit(")"); reveal_strlit("["); reveal_strlit("]"); reveal_strlit("{"); reveal_strlit("}");
             assert("("@ =~= seq!['(']); assert(")"@ =~= seq![')']); assert("["@ =~= seq!['[']); assert("]"@ =~= seq![']']); assert("{"@ =~= seq!['{']); assert("}"@ =~= seq!['}']); }'''),
       ],
@@ -216,13 +219,15 @@ TOKENIZER = [
   F('Tokenizer::comma_token',
     spec=r'''    requires old(self).in_token(start as int), start + 1 == old(self).off(),
     ensures *final(self) == *old(self),
-        r matches Ok(Token::Comma(s, sp)) && sp == Span(start, (start + 1) as usize) && s.spec_bytes() == old(self).text(start as int, start + 1),''',
+        r matches Ok(Token::Comma(s, sp)) && sp == Span(start, (start + 1) as usize) && s.spec_bytes() == old(self).text(start as int, start + 1),
+        r is Ok,  // @C05,C10 scanner.total''',
     ops=[],
   ),
   F('Tokenizer::semicolon_token',
     spec=r'''    requires old(self).in_token(start as int), start + 1 == old(self).off(),
     ensures *final(self) == *old(self),
-        r matches Ok(Token::Semicolon(s, sp)) && sp == Span(start, (start + 1) as usize) && s.spec_bytes() == old(self).text(start as int, start + 1),''',
+        r matches Ok(Token::Semicolon(s, sp)) && sp == Span(start, (start + 1) as usize) && s.spec_bytes() == old(self).text(start as int, start + 1),
+        r is Ok,  // @C05,C10 scanner.total''',
     ops=[],
   ),
   F('Tokenizer::number_token', props=['C01', 'C05', 'C09', 'C10'],
@@ -230,7 +235,8 @@ TOKENIZER = [
     ensures final(self).scan_frame(old(self), start as int),
         r matches Ok(t) ==> t matches Token::Number(d, sp) && sp == Span(start, final(self).off() as usize)
              && dec_parse(final(self).text(start as int, final(self).off())) == Some(d),
-        r matches Ok(t) ==> num_run(final(self).bytes(), start as int, final(self).off()) && !num_continues(final(self).bytes(), final(self).off()),  // @C09,C10 class.number_run''',
+        r matches Ok(t) ==> num_run(final(self).bytes(), start as int, final(self).off()) && !num_continues(final(self).bytes(), final(self).off()),  // @C09,C10 class.number_run
+        r is Err ==> dec_parse(final(self).text(start as int, final(self).off())) is None,  // @C05,C09 number.err_only_if_invalid''',
     ops=[Ins('loop#0', 'body_start', '            let ghost o0 = self.off();'),
       Ins('call:next_one', 'after', '                        proof { assert(num_continues(self.bytes(), o0)); assert(self.bytes()[self.off() - 1] >= 128 || self.cur_char.len_utf8() == 1); }'),
       Inv('loop#0', r'''        invariant self.scan_frame(old(self), start as int),
@@ -256,7 +262,8 @@ TOKENIZER = [
             && final(self).off() >= start + 2
             && s.spec_bytes() == final(self).text(start + 1, final(self).off() - 1)
             && final(self).bytes()[final(self).off() - 1] == final(self).bytes()[start as int]
-            && (forall|i: int| start < i < final(self).off() - 1 ==> #[trigger] final(self).bytes()[i] != final(self).bytes()[start as int]),''',
+            && (forall|i: int| start < i < final(self).off() - 1 ==> #[trigger] final(self).bytes()[i] != final(self).bytes()[start as int]),
+        r is Err ==> final(self).off() == final(self).len() && (forall|i: int| start < i < final(self).len() ==> #[trigger] final(self).bytes()[i] != final(self).bytes()[start as int]),  // @C05,C10 string.err_only_if_unterminated''',
     ops=[Inv('loop#0', r'''        invariant_except_break !string_termmited,
         invariant self.scan_frame(old(self), start as int), start + 1 <= self.off(),
             identifier == old(self).cur_char, identifier == '"' || identifier == '\'',
@@ -266,12 +273,14 @@ TOKENIZER = [
             string_termmited ==> self.off() >= start + 2 && self.bytes()[self.off() - 1] == identifier as u8
                  && is_char_boundary(self.bytes(), self.off() - 1)
                  && (forall|i: int| start < i < self.off() - 1 ==> #[trigger] self.bytes()[i] != identifier as u8),
+            !string_termmited ==> self.off() == self.len() && (forall|i: int| start < i < self.off() ==> #[trigger] self.bytes()[i] != identifier as u8),
         decreases self.len() - self.off(),''')],
   ),
   F('Tokenizer::bool_token',
     spec=r'''    requires old(self).in_token(start as int),
     ensures *final(self) == *old(self),
-        r matches Ok(Token::Bool(v, sp)) && v == val && sp == Span(start, old(self).off() as usize),''',
+        r matches Ok(Token::Bool(v, sp)) && v == val && sp == Span(start, old(self).off() as usize),
+        r is Ok,  // @C05,C10 scanner.total''',
     ops=[],
   ),
   F('Tokenizer::other_token',
